@@ -1,5 +1,6 @@
 """Registry: property id -> Lean modules, generated inputs, correspondence streams, trusted base."""
 import s_codec
+import s_keepalive
 
 KERNEL = "Lean 4.33.0 kernel; axioms limited to propext, Classical.choice, Quot.sound (audited with #print axioms on every run)"
 HARNESS = "the correspondence harness (generators, canonicalisation) in /verif/harness"
@@ -19,5 +20,18 @@ PROPS = {
                 "27-character reserved/special alphabet, random mixed strings, random alternative URL-encodings, "
                 "malformed tokens; non-trivial = value needs at least one escape or is None/'' (distinct values), "
                 "plus distinct alternative-encoding tokens",
+    },
+    "C12": {
+        "lean": ["AriVerif.Props.C12"],
+        "gen": ["KeepAlive"],
+        "streams": [s_keepalive.stream],
+        "trusted": [KERNEL, HARNESS, "harness/extract.py (Python-subset -> Lean translator) for Gen/KeepAlive.lean, "
+                    "mitigated by the grid differential of the generated definitions against the real method",
+                    "modelled, not verified: float arithmetic of CPython (the model is exact over Rat; the grid uses "
+                    "exactly representable values, where float ordering and correctly-rounded division agree with Rat)"],
+        "assumptions": ["the hint token parses with float(); non-numeric hints (ValueError on the reader thread) are outside the property",
+                        "Server._change_keep_alive reaches the writer through _RequestManager.change_keep_alive (checked by the C13 co-simulation)"],
+        "rule": "grid: configured in {None,-1,-0.5,0,1/8,1/2,1,1.5,5,10,12,3600} x hints {absent, negative, 0, boundaries around "
+                "1000/10000/configured*1000, large, decimal-string forms, random k/8}; both server kinds; non-trivial = positive hint (distinct (kind,cfg,hint))",
     },
 }
